@@ -145,7 +145,7 @@ def correspondence(ctx, model_ok=True):
     rng = ctx.rng.fork("c07")
     failures = []
     broken = []
-    hs = hier_requests(rng, 4800 if ctx.thorough else 360)
+    hs = hier_requests(rng, 4800 if ctx.thorough else 3000)
     real, _ = progs.run_programs(ctx.runner, [("h%d" % i, s, {}) for i, (_, s) in enumerate(hs)], {"gc": "default"}, tag="h")
     compared = 0
     if model_ok:
@@ -178,7 +178,7 @@ def correspondence(ctx, model_ok=True):
             if c[0] != "ok" or list(c[2]) != e or uaf:
                 failures.append({"what": "class scenario '%s' prints %s (%s %s), expected %s" % (name, list(c[2]) if len(c) > 2 else c, c[0], list(c[3])[:1] if len(c) > 3 else "", e),
                                  "program": src, "expected": e, "signature": "scenario " + name, "failing_input": True})
-    gen = progs.generated(rng, ["classes"], 6400 if ctx.thorough else 450)
+    gen = progs.generated(rng, ["classes"], 6400 if ctx.thorough else 3600)
     # metamorphic: every generated class program must print the same under stress GC (receiver/bound-method objects are short-lived temporaries)
     a, _ = progs.run_programs(ctx.runner, [(n, s, m) for n, s, m, _ in gen], {"gc": "default"}, tag="g")
     b, _ = progs.run_programs(ctx.runner, [(n, s, m) for n, s, m, _ in gen], {"gc": "always", "quarantine": 1}, tag="g")
